@@ -290,6 +290,9 @@ type c16Line struct {
 	Out     json.RawMessage `json:"out,omitempty"`
 	Nilform bool            `json:"nilform"`
 	Content bool            `json:"content"`
+	// echoed for the report only
+	Valid bool `json:"valid"`
+	Lead  bool `json:"lead"`
 }
 
 type c16InObs struct {
